@@ -39,3 +39,23 @@ Theorem C15_comp_op :
      (validate_comp_op_for_sim_measure (PStr op) (PStr m) = ok <-> op = ">=" \/ op = ">" \/ op = "=")).
 Proof. exact comp_op_sets. Qed.
 Print Assumptions C15_comp_op.
+
+(* no join / filter / matcher / profiler entry point can return (early exit included) before all
+   its validations were executed: a call that returns normally has checked every argument.
+   (The two converter functions are outside C15; series_to_str's dtype guard follows its
+   documented early return for empty series.) *)
+From SSJ Require Import SkeletonRet.
+Definition is_converter (n : string) : bool :=
+  String.eqb n "series_to_str" || String.eqb n "dataframe_column_to_str".
+Theorem C15_no_return_before_validation :
+  forall name sk, In (name, sk) all_entry_points -> is_converter name = false ->
+  forall o, fst (run_cnt o 0 0 (flat_map evs_of sk)) = Returned ->
+            snd (run_cnt o 0 0 (flat_map evs_of sk)) = nvalid (flat_map evs_of sk).
+Proof.
+  intros name sk Hin Hc. apply validations_before_returns_sound.
+  assert (H : forallb (fun p => is_converter (fst p) || validations_before_returns (snd p)) all_entry_points = true)
+    by (vm_compute; reflexivity).
+  rewrite forallb_forall in H. specialize (H (name, sk) Hin). cbn [fst snd] in H.
+  rewrite Hc in H. exact H.
+Qed.
+Print Assumptions C15_no_return_before_validation.
